@@ -40,7 +40,7 @@ type c47Vec struct {
 	AlwaysRESP2  bool     `json:"always_resp2,omitempty"`
 	NoTouch      bool     `json:"no_touch,omitempty"`
 	NoEvict      bool     `json:"no_evict,omitempty"`
-	SetInfo      string   `json:"set_info"` // default | custom | disabled
+	SetInfo      string   `json:"set_info"`               // default | custom | disabled
 	Redirect     bool     `json:"redirect,omitempty"`     // Standalone.EnableRedirect (standalone client, CLIENT CAPA redirect)
 	ReplicaOnly  bool     `json:"replica_only,omitempty"` // READONLY; only together with Redirect (a single client rejects it)
 }
